@@ -4,7 +4,7 @@
 (* arrivals (C10, C11), discharged symbolically by Apalache (Z3) for ALL   *)
 (* periods T >= 1, jitters J >= 0 and interval lengths over the naturals.  *)
 (***************************************************************************)
-EXTENDS Integers
+EXTENDS ClosedForms
 
 VARIABLES
     \* @type: Int;
@@ -17,14 +17,6 @@ VARIABLES
     b,
     \* @type: Int;
     j2
-
-CeilDiv(x, y) == (x + y - 1) \div y
-\* Sporadic(T, J).number_arrivals; Periodic(T) is J = 0
-Eta(T, J, delta) == IF delta = 0 THEN 0 ELSE CeilDiv(delta + J, T)
-
-\* Sporadic::steps_iter yields 1 and k*T + 1 - J for every k with k*T > J:
-\* delta >= 2 is of that form iff delta - 1 + J is a positive multiple of T
-InSteps(T, J, delta) == delta = 1 \/ (delta >= 2 /\ (delta - 1 + J) % T = 0)
 
 Init == t \in Nat /\ j \in Nat /\ a \in Nat /\ b \in Nat /\ j2 \in Nat /\ t >= 1
 Next == UNCHANGED <<t, j, a, b, j2>>
@@ -40,4 +32,10 @@ Jitter ==
     /\ (a > 0) => Eta(t, j, a + j2) = Eta(t, j + j2, a)      \* Propagated: delay by j2 = window longer by j2
 \* the steps are exactly the increase points
 StepsExact == (a >= 1) => ((Eta(t, j, a - 1) < Eta(t, j, a)) <=> InSteps(t, j, a))
+\* NextStep really is the next step: it is a step, it lies beyond a, and nothing in between is a step
+NextStepExact ==
+    InSteps(t, j, a) =>
+        /\ NextStep(t, j, a) > a
+        /\ InSteps(t, j, NextStep(t, j, a))
+        /\ (a < b /\ b < NextStep(t, j, a)) => ~InSteps(t, j, b)
 =============================================================================
